@@ -35,6 +35,7 @@ type rscenario struct {
 	Extended bool     `json:"extended"`
 	Utf8     bool     `json:"utf8"`
 	Max      int      `json:"max"`
+	Skip     bool     `json:"skip"` // Reader.SkipHeaderCheck
 	Coded    bool     `json:"coded"`
 	Cbs      bool     `json:"cbs"`
 	Frames   []rframe `json:"frames"`
@@ -247,7 +248,7 @@ func runReader(sc *rscenario) (evs []interface{}) {
 	case "reader", "nextreader":
 		var ms wsflate.MessageState
 		var cbs []rcb
-		rd := &wsutil.Reader{Source: src, State: sc.state(), CheckUTF8: sc.Utf8, MaxFrameSize: int64(sc.Max)}
+		rd := &wsutil.Reader{Source: src, State: sc.state(), CheckUTF8: sc.Utf8, MaxFrameSize: int64(sc.Max), SkipHeaderCheck: sc.Skip}
 		if sc.Ext {
 			rd.Extensions = []wsutil.RecvExtension{&ms}
 		}
